@@ -7,7 +7,7 @@ CONSTANTS Worlds <- WorldsAll
           Ns = {0, 2}
           EmptyAsNone = TRUE
           LiveRule = "post"
-          MaxTrunc = 2
+          MaxTrunc = 1
           TruncBack = {1, 4}
           Depth = 0
 INIT MCInit
